@@ -18,7 +18,7 @@ import nlgen, c19gen
 
 CHAIN_RE = re.compile(r'(_(\d+|slk|equ)_)*\Z')
 TOKSTART_RE = re.compile(r'_[^_]+_')
-N_THEOREMS = 36
+N_THEOREMS = 43
 
 
 def hx(s):
@@ -151,6 +151,13 @@ class Graph:
                 src = [self.rng(d) for d in o['src_nodes']]
                 dst = [self.rng(d) for d in o['dest_nodes']]
                 self.links.append((o['link_type'], src, dst))
+        # links into the ModelAPI-side nodes dest_cons(*) are registered by PushModelTo, i.e. after PresolveNames has run:
+        # they take no part in the name presolve
+        late = lambda e: any(n.startswith('dest_cons(') for (n, b_, e_) in e[2])
+        self.late_links = [e for e in self.links if late(e)]
+        self.links = [e for e in self.links if not late(e)]
+        exported = [e for e in exported if not late(e)]
+        self.exported = exported
         self.stale = self.links != exported
 
     def touch(self, node, idx):
@@ -196,6 +203,64 @@ class Graph:
             else:
                 L.append('unknown-link ' + kind)
         return L
+
+    def api_calls(self, root_cells):
+        """the registration sequence as calls of the Lean constructor API (Model.lean `Call`)"""
+        seen = set(root_cells)
+        calls = ['broot %d' % c for c in root_cells]
+
+        def tgt(c):
+            if c in seen:
+                return 'breuse %d' % c
+            seen.add(c)
+            return 'bcreate %d' % c
+        i, L = 0, self.links
+        unknown = 0
+        while i < len(L):
+            kind, src, dst = L[i]
+            if kind == 'CopyLink':
+                (sn, sb, se), (dn, db, de) = src[0], dst[0]
+                for k in range(se - sb):
+                    calls += ['bopen %d' % self.cell(sn, sb + k), tgt(self.cell(dn, db + k)), 'bclose']
+                i += 1
+            elif kind == 'One2ManyLink':
+                # an entry may carry a source range: Many2ManyLink::AddEntry merges `same target, consecutive sources`
+                # (last target of one scope = first target of the next); Distr runs source by source
+                units = []
+                while i < len(L) and L[i][0] == 'One2ManyLink':
+                    (sn, sb, se), (dn, db, de) = L[i][1][0], L[i][2][0]
+                    for sj in range(sb, se):
+                        units.append((self.cell(sn, sj), [self.cell(dn, j) for j in range(db, de)]))
+                    i += 1
+                k = 0
+                while k < len(units):
+                    s0 = units[k][0]
+                    calls.append('bopen %d' % s0)
+                    while k < len(units) and units[k][0] == s0:
+                        calls += [tgt(c) for c in units[k][1]]
+                        k += 1
+                    calls.append('bclose')
+            elif kind == 'Many2OneLink':
+                (dn, db, de) = dst[0]
+                t = self.cell(dn, db)
+                srcs = []
+                while i < len(L) and L[i][0] == 'Many2OneLink' and self.cell(L[i][2][0][0], L[i][2][0][1]) == t:
+                    (sn, sb, se) = L[i][1][0]
+                    srcs += [self.cell(sn, j) for j in range(sb, se)]
+                    i += 1
+                seen.add(t)
+                calls.append('bm2o %d %s' % (t, ' '.join(map(str, srcs))))
+            elif kind.startswith('Range2Slk'):
+                (sn, sb, se) = src[0]
+                (cn, cb, ce), (vn, vb, ve) = dst[0], dst[1]
+                con, slk = self.cell(cn, cb), self.cell(vn, vb)
+                seen.add(con); seen.add(slk)
+                calls += ['bopen %d' % self.cell(sn, sb), 'bslack %d %d' % (con, slk)]
+                i += 1
+            else:
+                unknown += 1
+                i += 1
+        return calls, unknown
 
     def ancestors(self):
         """root source cells reaching each cell (by flat cell id), following entries in order"""
@@ -506,14 +571,33 @@ def exec_case(ck, exe, drv, st, case):
     ops = G.op_lines()
     for o in ops:
         st.inc('linkop:' + o.split()[0])
-    lines += ops + ['run']
+    root_cells = sorted(root_name)
+    api, api_unknown = G.api_calls(root_cells)
+    lines += ops + api + ['bend', 'run']
     res = drv.many(lines)
-    bad = [(l, a) for l, a in zip(lines, res) if a == 'bad-op' or (a != 'ok' and not a.startswith('run '))]
+    bad = [(l, a) for l, a in zip(lines, res) if a == 'bad-op' or (a != 'ok' and not a.startswith('run ') and not a.startswith('ok='))]
     if bad:
         out.append(('model:bad-op', 'the Lean driver cannot interpret %r' % (bad[0],), replay, False))
         return out + [(sg + ':unclassified', w, rp, True) for sg, w, rp in pending]
     runinfo = dict(kv.split('=') for kv in res[-1].split()[1:])
     count_arms(st, runinfo)
+    binfo = dict(kv.split('=', 1) for kv in res[-2].split())
+    built = binfo.get('ok') == '1' and binfo.get('closed') == '1' and binfo.get('opsequal') == '1' and not api_unknown
+    st.inc('api:built=%d' % built)
+    st.inc('api:calls', len(api))
+    api_leaves = set(int(x) for x in binfo.get('leaves', '').split(',') if x)
+    delivered_cells = [G.cell('dest_vars()', i) for i in range(len(vnames))] + [G.cell(t, i) for (t, i), o in final_cons] + [G.cell('dest_objs()', i) for i in range(len(objs))]
+    not_leaf = [c for c in delivered_cells if c not in api_leaves]
+    st.inc('api:delivered-not-a-leaf', len(not_leaf))
+    inv_base = sorted(((v, k) for k, v in G.base.items()), reverse=True)
+    for c in not_leaf:
+        st.inc('api:not-leaf-node:' + next(k for v, k in inv_base if v <= c))
+    if not built:
+        # the real registration sequence is not a sequence of constructor-API calls (or yields other operations):
+        # the by-construction theorems (C19_*_built) do not cover this run
+        out.append(('registration-outside-constructor-api',
+                    'the real link registration cannot be replayed through the constructor API: ok=%s closed=%s opsequal=%s unknown-link-kinds=%d' % (
+                        binfo.get('ok'), binfo.get('closed'), binfo.get('opsequal'), api_unknown), dict(replay, api_calls=api[:60]), True))
     q = ['var %d' % G.cell('dest_vars()', i) for i in range(len(vnames))]
     q += ['var %d' % G.cell('dest_objs()', i) for i in range(len(objs))]
     conkeys = sorted(G.con_final)
@@ -547,6 +631,12 @@ def exec_case(ck, exe, drv, st, case):
     hyps = {'wellfed': runinfo.get('wellfed') == '1', 'sib': runinfo.get('sib') == '1',
             'plainsafe': runinfo.get('noclash') == '1' and runinfo.get('closed') == '1',
             'leaves': leaves, 'suffixfree': sfv == '1' and sfc == '1'}
+    # by construction (C19_*_built theorems): only SuffixFree and NoClash remain as hypotheses when the run is a built graph
+    # whose delivered items are exactly leaves
+    hyps_built = {'built': built, 'delivered-are-leaves': not not_leaf, 'suffixfree': hyps['suffixfree'], 'noclash': hyps['plainsafe']}
+    st.inc('built-theorem-applies=%d' % all(hyps_built.values()))
+    if built and not not_leaf and not all(hyps[k] for k in ('wellfed', 'sib', 'leaves')):
+        out.append(('model:built-theorem-contradicted', 'a built graph with leaf deliveries violates a structural hypothesis that C19_built_* prove: %r' % hyps, replay, False))
     for k, v in hyps.items():
         st.inc('hyp:%s=%d' % (k, v))
     st.inc('edges', int(runinfo.get('edges', 0)))
